@@ -38,7 +38,9 @@ PROPS = {
     "C14": dict(worlds=[("arena", 1.0)], quick=50_000, thorough=2_500_000),
     "C15": dict(worlds=[("coll", 1.0)], quick=300_000, thorough=12_000_000),
     "C16": dict(worlds=[("coll", 1.0)], quick=300_000, thorough=12_000_000),
+    "C17": dict(worlds=[("lock", 1.0)], quick=200_000, thorough=8_000_000),
     "C18": dict(worlds=[("arena", 1.0)], quick=60_000, thorough=3_000_000),
+    "C19": dict(worlds=[("pool", 1.0)], quick=20_000, thorough=1_000_000),
 }
 
 REAL = ["bump-scope (all of /repo/src, built from the working tree through /verif/shadow/Cargo.toml, opt-level=0, debug assertions and overflow checks on)"]
@@ -46,6 +48,9 @@ STUBS = {
     "arena": ["base allocator: SimHeap (simcore/src/heap.rs) behind 5 handle types", "callers: seeded interpreter (sim/src/bin/arena)"],
     "coll": ["base allocator: SimHeap (simcore/src/heap.rs)", "element types, closures, iterators: Tracked elements with a drop ledger and scripted callbacks (sim/src/bin/coll/elem.rs, iters.rs)",
              "std::vec::Vec<u32> reference model of the element sequence (oracle side)"],
+    "lock": ["base allocator: two identically seeded SimHeaps (simcore/src/heap.rs), one per arena", "callers: seeded lock-step interpreter choosing an entry-point pair per step (sim/src/bin/lock)"],
+    "pool": ["std::sync::Mutex inside BumpPool: shuttle::sync::Mutex (guarded hook in /repo, --cfg bump_scope_verif)", "threads: shuttle tasks under a seeded Random / PCT scheduler",
+             "base allocator: SimHeap behind a Send + Sync handle whose every call is a scheduling point"],
     "strs": ["base allocator: SimHeap (simcore/src/heap.rs)", "Display impls / retain predicates: scripted, may fail or unwind (sim/src/bin/strs/interp.rs)",
              "std::string::String reference model (oracle side)"],
 }
@@ -367,6 +372,10 @@ def main():
                 continue
             seen.add(cls)
             k = known_match(known, prop, cls)
+            if k is not None:
+                # a listed finding: re-observed, not minimised again (its canonical replay file is committed)
+                known_hits.append((cls, k, os.path.join(ROOT, k.get("replay", ""))))
+                continue
             m = Minimiser(binaries[world], prop, cls, workdir)
             small = m.run(text)
             if small is None:
@@ -383,10 +392,7 @@ def main():
             if repro:
                 kind, classes, _ = run_replay(binaries[world], path)
                 repro = cls in classes
-            if k is not None:
-                known_hits.append((cls, k, path))
-            else:
-                reported.append((cls, path, origin, repro, m.n))
+            reported.append((cls, path, origin, repro, m.n))
 
     wall_run = time.time() - t_run
     # ---- evidence
